@@ -6,8 +6,8 @@ Line driver for C18 (`drv-heap`): executes the op stream of `harness/cmd/drive-a
 model under the implementation's port table `portTable implFixes`.
 
 ops:
-  cfg asis | cfg <b1><b2><b3><b4>     -> ok                       which proposed fixes the tree under test has (asis = `implFixes`;
-                                                                  bits: awaitAtt awaitPro awaitContrib schedResolve); also resets
+  cfg asis | cfg <b1>…<b5>           -> ok                       which proposed fixes the tree under test has (asis = `implFixes`;
+                                                                  bits: awaitAtt awaitPro awaitContrib schedResolve cacheClone); also resets
   new <label…>                        -> ok                       fresh heap, no holders
   alloc <h> <shape> [tag]             -> sh[]                     holder h builds a new value; shape = parenthesised forest or `-`
   pass <port> <src> <dst> <ref> [h]   -> sh[ids] eq|ne|-          value of src through port to dst; ids = visible holders sharing
@@ -60,9 +60,9 @@ def knownPort (fx : Fixes) (p : Port) : Bool := (portTable fx).any (fun r => por
 def parseFixes (s : String) : Option Fixes :=
   if s == "asis" then some implFixes else
   match s.toList with
-  | [a, b, c, d] =>
-    if [a, b, c, d].all (fun x => x == '0' || x == '1') then
-      some ⟨a == '1', b == '1', c == '1', d == '1'⟩
+  | [a, b, c, d, e] =>
+    if [a, b, c, d, e].all (fun x => x == '0' || x == '1') then
+      some ⟨a == '1', b == '1', c == '1', d == '1', e == '1'⟩
     else none
   | _ => none
 
